@@ -209,24 +209,25 @@ type Scenario struct {
 	MeasMode string // "1" fraction of available water, "3" absolute
 	InitSel  int
 
-	ETpot        int
-	CO2Method    int
-	CO2Conc      float64
-	CO2Stomata   int
-	NDeposition  float64
-	LeachDepth   int
-	Latitude     float64
-	Altitude     float64
-	CoastDist    float64
-	Fertilizat   float64
-	OrgMinProp   float64
-	KcBare       float64
-	AnnualTemp   float64
-	PotMin       int
-	PrecipCorr   bool
-	AliasCrops   map[string]string // crop code of the built-in table without a shipped parameter file -> shipped crop whose parameter file the project supplies under that name
-	AlwaysPreco  bool              // write the monthly precipitation-correction table even if the correction is off (a batch line may switch it on)
-	PrecoFactors [12]float64
+	ETpot                int
+	CO2Method            int
+	CO2Conc              float64
+	CO2Stomata           int
+	NDeposition          float64
+	LeachDepth           int
+	Latitude             float64
+	Altitude             float64
+	CoastDist            float64
+	Fertilizat           float64
+	OrgMinProp           float64
+	KcBare               float64
+	AnnualTemp           float64
+	PotMin               int
+	PrecipCorr           bool
+	ReducedTablesWithout string            // the project runs with a parameter folder of its own whose texture tables lack this texture
+	AliasCrops           map[string]string // crop code of the built-in table without a shipped parameter file -> shipped crop whose parameter file the project supplies under that name
+	AlwaysPreco          bool              // write the monthly precipitation-correction table even if the correction is off (a batch line may switch it on)
+	PrecoFactors         [12]float64
 	// WeatherFault (C04): the weather input does not cover the whole simulation ("", ends_early, gap, missing_year, starts_late)
 	WeatherFault string
 	FaultFrom    Date // first day without a record
